@@ -53,6 +53,15 @@ def run(tier, replay=None):
         cases.append({'id': 'deep-parens', 'src': "proc main() is x := " + "(" * 3000 + "1" + ")" * 3000 + "\n", 'fam': 'deep'})
         cases.append({'id': 'deep-blocks', 'src': "proc main() is " + "{ " * 2000 + "skip" + " }" * 2000 + "\n", 'fam': 'deep'})
         cases.append({'id': 'long-chain', 'src': "var x;\nproc main() is x := " + " + ".join(["1"] * 3000) + "\n", 'fam': 'deep'})
+        # numbers at the corners of int wherever the compiler computes with them: array lengths (alone, and after another array, so that
+        # sums of lengths are formed), val arithmetic, subscripts, literals in every statement position
+        BIG = ['#7fffffff', '#7ffffff6', '2147483647', '#80000000', '4294967295', '#ffffffff', '199999', '200000', '#7fffffff - 1', '0 - 1', '0']
+        k = 0
+        for a1 in BIG:
+            for a0 in ('', 'array a[10];\n', 'array a[199990];\n', 'array a[#7fffffff];\n'):
+                cases.append({'id': 'edge-array%d' % k, 'src': "%sarray b[%s];\nproc main() is b[0] := 1\n" % (a0, a1), 'fam': 'edge'}); k += 1
+            cases.append({'id': 'edge-val%d' % k, 'src': "val v = %s;\nval w = v + v;\nval u = w - %s;\narray c[u];\nproc main() is 0(w + u)\n" % (a1, a1), 'fam': 'edge'}); k += 1
+            cases.append({'id': 'edge-idx%d' % k, 'src': "array a[4];\nproc main() is { a[%s] := 1; 0(a[%s] + %s) }\n" % (a1, a1, a1), 'fam': 'edge'}); k += 1
         # scale: Unusual!XScaleShapes x ScaleSizes (nesting depth of every construct, chain / comment / token / list lengths, numbers of
         # names).  The small size also goes through the sanitizer build; all sizes go to the executable, where the real stack is.
         scale = fuzzlib.scale_cases(comp['scale'])
